@@ -127,6 +127,12 @@ pub fn record(a: &Args) -> Report {
       }
     }
     let by_group = |g: usize| -> Vec<usize> { (0..clients.len()).filter(|i| cgroup[*i] == g).collect() };
+    if by_group(1).len() < (t0 as usize).max(1) + 1 || (2..=4).any(|g| by_group(g).is_empty()) {
+      // some client could not produce or round-trip its report (already recorded as a violation
+      // above): the selections below need the full population
+      rep.count("scenarios_skipped_incomplete_population", 1);
+      continue;
+    }
     // selections
     let nsel = a.u64("selections", 40);
     for k in 0..nsel {
@@ -688,6 +694,23 @@ pub fn cipher_check(a: &Args) -> Report {
       };
       if let Some(c) = make_client(ClientCfg { m: m.clone(), e: e.clone(), t, aux: Some(aux), src: src.into() }, &oprf, &mut rep) {
         cl.push(c);
+      }
+    }
+    // and reports produced from ONE MessageGenerator instance (one client object reporting the same
+    // measurement several times with different associated data)
+    if src == "local" {
+      let mg = sta_rs::MessageGenerator::new(sta_rs::SingleMeasurement::new(&m), t, &e);
+      let mut rnd = [0u8; 32];
+      mg.sample_local_randomness(&mut rnd);
+      for r in 0..3usize {
+        let aux: Vec<u8> = (0..(9 + 31 * r + (g as usize % 5))).map(|i| (i as u8).wrapping_mul(7).wrapping_add(r as u8 * 91)).collect();
+        if let Guard::Done(Ok(msg)) = guard(|| sta_rs::Message::generate(&mg, &rnd, Some(sta_rs::AssociatedData::new(&aux)))) {
+          let bytes = msg.to_bytes();
+          cl.push(RealClient {
+            cfg: ClientCfg { m: m.clone(), e: e.clone(), t, aux: Some(aux), src: "local".into() },
+            share_bytes: msg.share.to_bytes(), ct: msg.ciphertext.to_bytes(), tag: msg.tag.clone(), key: None, rnd, msg_bytes: bytes,
+          });
+        }
       }
     }
     if cl.len() < nrep {
